@@ -12,29 +12,32 @@ SIGS = [signal.SIGINT, signal.SIGTERM, signal.SIGHUP]
 
 
 def scenarios(workdir, repo):
+    """(tool, sub-command, argv builder, units): `units` = the number of per-file modifications the command consists of -
+    one per input file and pass (mid3v2 with --delete-frames and edits passes twice over the files: first the deletions,
+    then the edits; mid3cp has a single destination).  A signal may end the run between two units, never inside one"""
     d = os.path.join(repo, "tests", "data")
     def cp(name, as_):
         p = os.path.join(workdir, as_)
         shutil.copy(os.path.join(d, name), p)
         return p
     return [
-        ("mid3v2", "delete-all", lambda: ["mid3v2", "--delete-all", cp("silence-44-s.mp3", "a.mp3"), cp("id3v1v2-combined.mp3", "b.mp3")]),
-        ("mid3v2", "delete-frames", lambda: ["mid3v2", "--delete-frames=TIT2,TALB", cp("silence-44-s.mp3", "a.mp3"), cp("vbri.mp3", "b.mp3")]),
+        ("mid3v2", "delete-all", lambda: ["mid3v2", "--delete-all", cp("silence-44-s.mp3", "a.mp3"), cp("id3v1v2-combined.mp3", "b.mp3")], 2),
+        ("mid3v2", "delete-frames", lambda: ["mid3v2", "--delete-frames=TIT2,TALB", cp("silence-44-s.mp3", "a.mp3"), cp("vbri.mp3", "b.mp3")], 2),
         ("mid3v2", "write", lambda: ["mid3v2", "-t", "title", "-a", "x" * 3000, "-c", "d:comment:eng",
-                                     cp("silence-44-s.mp3", "a.mp3"), cp("no-tags.mp3", "b.mp3")]),
-        ("mid3cp", "plain", lambda: ["mid3cp", cp("silence-44-s.mp3", "src.mp3"), cp("no-tags.mp3", "dst.mp3")]),
-        ("mid3cp", "merge", lambda: ["mid3cp", "--merge", "--write-v1", cp("silence-44-s.mp3", "src.mp3"), cp("vbri.mp3", "dst.mp3")]),
-        ("mid3iconv", "convert", lambda: ["mid3iconv", "-e", "latin1", "-q", cp("silence-44-s.mp3", "a.mp3"), cp("id3v1v2-combined.mp3", "b.mp3")]),
-        ("mid3iconv", "remove-v1", lambda: ["mid3iconv", "-e", "latin1", "-q", "--remove-v1", cp("id3v1v2-combined.mp3", "a.mp3"), cp("silence-44-s.mp3", "b.mp3")]),
-        ("mid3iconv", "force-v1", lambda: ["mid3iconv", "-e", "latin1", "-q", "--force-v1", cp("id3v1v2-combined.mp3", "a.mp3"), cp("silence-44-s-v1.mp3", "b.mp3")]),
-        ("mid3v2", "delete-v1", lambda: ["mid3v2", "--delete-v1", cp("id3v1v2-combined.mp3", "a.mp3"), cp("silence-44-s-v1.mp3", "b.mp3")]),
-        ("mid3v2", "delete-v2", lambda: ["mid3v2", "--delete-v2", cp("id3v1v2-combined.mp3", "a.mp3"), cp("silence-44-s.mp3", "b.mp3")]),
+                                     cp("silence-44-s.mp3", "a.mp3"), cp("no-tags.mp3", "b.mp3")], 2),
+        ("mid3cp", "plain", lambda: ["mid3cp", cp("silence-44-s.mp3", "src.mp3"), cp("no-tags.mp3", "dst.mp3")], 1),
+        ("mid3cp", "merge", lambda: ["mid3cp", "--merge", "--write-v1", cp("silence-44-s.mp3", "src.mp3"), cp("vbri.mp3", "dst.mp3")], 1),
+        ("mid3iconv", "convert", lambda: ["mid3iconv", "-e", "latin1", "-q", cp("silence-44-s.mp3", "a.mp3"), cp("id3v1v2-combined.mp3", "b.mp3")], 2),
+        ("mid3iconv", "remove-v1", lambda: ["mid3iconv", "-e", "latin1", "-q", "--remove-v1", cp("id3v1v2-combined.mp3", "a.mp3"), cp("silence-44-s.mp3", "b.mp3")], 2),
+        ("mid3iconv", "force-v1", lambda: ["mid3iconv", "-e", "latin1", "-q", "--force-v1", cp("id3v1v2-combined.mp3", "a.mp3"), cp("silence-44-s-v1.mp3", "b.mp3")], 2),
+        ("mid3v2", "delete-v1", lambda: ["mid3v2", "--delete-v1", cp("id3v1v2-combined.mp3", "a.mp3"), cp("silence-44-s-v1.mp3", "b.mp3")], 2),
+        ("mid3v2", "delete-v2", lambda: ["mid3v2", "--delete-v2", cp("id3v1v2-combined.mp3", "a.mp3"), cp("silence-44-s.mp3", "b.mp3")], 2),
         # -C/--convert: no edits, every file rewritten as v2.4 (an ID3v1-only file gets a new tag: the file has to grow)
-        ("mid3v2", "convert", lambda: ["mid3v2", "--convert", cp("silence-44-s-v1.mp3", "a.mp3"), cp("id3v1v2-combined.mp3", "b.mp3")]),
-        ("mid3v2", "convert+edit", lambda: ["mid3v2", "-C", "-t", "t" * 2000, cp("silence-44-s-v1.mp3", "a.mp3"), cp("silence-44-s.mp3", "b.mp3")]),
-        ("mid3v2", "delete-frames+edit", lambda: ["mid3v2", "--delete-frames=TIT2", "-a", "y" * 2500, cp("silence-44-s.mp3", "a.mp3"), cp("vbri.mp3", "b.mp3")]),
-        ("mid3cp", "exclude", lambda: ["mid3cp", "-x", "TIT2", "--exclude-tag=TALB", cp("silence-44-s.mp3", "src.mp3"), cp("no-tags.mp3", "dst.mp3")]),
-        ("moggsplit", "split", lambda: ["moggsplit", "--m3u", cp("multiplexed.spx", "m.spx"), cp("empty.ogg", "e.ogg")]),
+        ("mid3v2", "convert", lambda: ["mid3v2", "--convert", cp("silence-44-s-v1.mp3", "a.mp3"), cp("id3v1v2-combined.mp3", "b.mp3")], 2),
+        ("mid3v2", "convert+edit", lambda: ["mid3v2", "-C", "-t", "t" * 2000, cp("silence-44-s-v1.mp3", "a.mp3"), cp("silence-44-s.mp3", "b.mp3")], 2),
+        ("mid3v2", "delete-frames+edit", lambda: ["mid3v2", "--delete-frames=TIT2", "-a", "y" * 2500, cp("silence-44-s.mp3", "a.mp3"), cp("vbri.mp3", "b.mp3")], 4),
+        ("mid3cp", "exclude", lambda: ["mid3cp", "-x", "TIT2", "--exclude-tag=TALB", cp("silence-44-s.mp3", "src.mp3"), cp("no-tags.mp3", "dst.mp3")], 1),
+        ("moggsplit", "split", lambda: ["moggsplit", "--m3u", cp("multiplexed.spx", "m.spx"), cp("empty.ogg", "e.ogg")], 2),
     ]
 
 
@@ -202,11 +205,16 @@ def snapshot(workdir):
     return out
 
 
-def state_mismatch(before, snaps, got_ns, after):
+def state_mismatch(before, snaps, got_ns, after, ref_after=None):
     """the files after an interrupted run must be exactly what the undisturbed run leaves once the blocks that were
     entered are complete (a command may pass over the same file in several blocks: delete-frames, then the edits):
     -> name of a file that is in no such state, or None"""
     import hashlib
+    if snaps is None:
+        for fn, data in after.items():
+            if data != ref_after.get(fn) and data != before.get(fn):
+                return fn
+        return None
     j = len([n for n in got_ns if n > 0])
     if j == 0:
         exp = {fn: hashlib.sha1(d).hexdigest() for fn, d in before.items()}
@@ -265,10 +273,10 @@ def run(ctx):
 def _run(ctx, base):
     rng = ctx.rng
     lines = []; pending = []
-    for tool, sub, mk in scenarios(base, ctx.repo):
+    for tool, sub, mk, units in scenarios(base, ctx.repo):
         def argv_fn(workdir, mk=mk):
             # rebuild the scenario inside `workdir`
-            for t, s, m in scenarios(workdir, ctx.repo):
+            for t, s, m, _u in scenarios(workdir, ctx.repo):
                 if t == tool and s == sub:
                     return m()
         ref, before, ref_after, argv = run_case(tool, argv_fn, base, None, None, ctx.repo)
@@ -276,6 +284,11 @@ def _run(ctx, base):
             raise RuntimeError("C20 reference run of %s %s failed: %s" % (tool, sub, ref))
         events = ref["events"]
         ns = blocks_of(events)
+        # the blocks of the undisturbed run are the units of the command: then a run may stop after any whole block;
+        # otherwise (the code protects something else than one per-file modification) every file must be untouched or final
+        snaps = ref.get("snaps", []) if len(ns) == units else None
+        if snaps is None:
+            ctx.notes.append("%s %s: %d protected blocks for %d per-file modifications" % (tool, sub, len(ns), units))
         unprotected = [e for e in events if e[0] == "unprotected-op" and e[2] in ("write", "truncate")]
         if unprotected:
             ctx.notes.append("%s %s: %d file-modifying operations run outside `with _sig.block()`" % (tool, sub, len(unprotected)))
@@ -310,7 +323,7 @@ def _run(ctx, base):
                 if not str(res.get("exit", "")).startswith("SystemExit:Aborted"):
                     ctx.violation("%s:%s:no-abort" % (tool, sub), "signal delivered but the tool ended with %s" % res.get("exit"), case)
                 # (2) every file is as in the undisturbed run or untouched; no partial file
-                bad = state_mismatch(before, ref.get("snaps", []), got_ns, after)
+                bad = state_mismatch(before, snaps, got_ns, after, ref_after)
                 if bad is not None:
                     ctx.violation("%s:%s:half-written" % (tool, sub), "file %s is not what the undisturbed run leaves after the %d block(s) "
                                   "that were entered (nor untouched)" % (bad, len([n for n in got_ns if n > 0])), case)
@@ -348,7 +361,7 @@ def _run(ctx, base):
                         continue
                     if not str(res.get("exit", "")).startswith("SystemExit:Aborted"):
                         ctx.violation("%s:%s:two-signals:no-abort" % (tool, sub), "two signals delivered but the tool ended with %s" % res.get("exit"), case)
-                    bad = state_mismatch(before, ref.get("snaps", []), blocks_of(res["events"]), after)
+                    bad = state_mismatch(before, snaps, blocks_of(res["events"]), after, ref_after)
                     if bad is not None:
                         ctx.violation("%s:%s:two-signals:half-written" % (tool, sub), "file %s is not what the undisturbed run leaves after "
                                       "the blocks that were entered" % bad, case)
